@@ -65,7 +65,7 @@ def gen_c12(rng, big=False):
     life = rng.choices(["serve", "never-served", "shutdown-inflight", "handle-loop", "serve-twice", "close-while-serving", "stop-rpc"],
                        [52, 8, 12, 8, 8, 8 if kind != "plain" else 0, 5 if kind != "plain" else 0])[0]
     methods = {"echo": {"kind": "echo"}, "fail": {"kind": "fail"},
-               "slow": {"kind": "slow", "d": rng.choice([0.5, 1.0, 2.0])},
+               "slow": {"kind": "slow", "d": rng.choice([0.5, 1.0, 2.0, 2.0, 7.0, 40.0])},
                "ns.echo": {"kind": "echo"}, "quit": {"kind": "exit"}, "err": {"kind": "sharedfault"}}
     if life in ("shutdown-inflight", "close-while-serving"):
         methods["gate"] = {"kind": "gate", "gate": "g"}
@@ -96,8 +96,13 @@ def gen_c12(rng, big=False):
                     ents.append([rng.choice(["call", "call", "notify"]), rng.choice(names), ["%se%d" % (tok, e)]])
                 ops.append(["batch", ents])
                 nreq += 1
-            elif k < 0.9:
+            elif k < 0.88:
                 ops.append(["raw", rng.choice(RAW_BODIES).replace("RAWTOKEN", tok)])
+                nreq += 1
+            elif k < 0.9:
+                # a slow peer: the same kind of request, arriving in two parts seconds apart
+                ops.append(["rawslow", rng.choice(RAW_BODIES).replace("RAWTOKEN", tok), rng.choice(["in-headers", "before-body", "in-body"]),
+                            rng.choice([2.0, 7.0, 30.0, 120.0])])
                 nreq += 1
             elif k < 0.93 and life != "handle-loop":
                 body = '{"jsonrpc": "2.0", "method": "echo", "params": ["%s"], "id": 5}' % tok
@@ -125,6 +130,8 @@ def gen_c12(rng, big=False):
         prog["double_close"] = True
     if rng.random() < 0.04:
         prog["cold"] = True
+    if rng.random() < 0.15:
+        prog["debug_log"] = True  # the application runs the library's loggers at DEBUG level
     if life == "serve" and rng.random() < 0.15:
         prog["second_server"] = True
     elif life in ("serve", "handle-loop") and rng.random() < 0.12:
@@ -242,7 +249,7 @@ def op_tokens(op):
         for e in op[1]:
             for t in TOKEN.findall(json.dumps(e[2])):
                 out[t] = (e[0], e[1])
-    elif op[0] in ("raw", "rawtrunc"):
+    elif op[0] in ("raw", "rawslow", "rawtrunc"):
         for t in TOKEN.findall(op[1]):
             out[t] = ("call", "echo")
     elif op[0] == "abort":
@@ -326,7 +333,7 @@ def analyse_c12(program, s, run, verdict):
             if n > 1:
                 v.append(Violation("C12", "executions", "duplicated", "request %s executed %d times" % (tok, n)))
             registered = m in methods
-            if o["op"][0] in ("raw", "rawtrunc", "abort"):
+            if o["op"][0] in ("raw", "rawslow", "rawtrunc", "abort"):
                 continue
             if life in ("serve", "handle-loop") and registered and o["ret"] != INF and tok in delivered and n == 0:
                 v.append(Violation("C12", "executions", "lost", "request %s (%s %s) was answered/accepted but never executed" % (tok, kind, m)))
@@ -375,6 +382,8 @@ class C12Scenario(object):
             p["invalid_body_sent"] = 1
         if any(o["kind"] == "rawtrunc" for o in h.ops.values()):
             p["client_died_mid_body"] = 1
+        if any(o["kind"] == "rawslow" for o in h.ops.values()):
+            p["request_with_a_pause_of_seconds_inside"] = 1
         if any(o["kind"] == "abort" for o in h.ops.values()):
             p["client_aborted_connection"] = 1
         if any(o["kind"] == "abort" and o["op"][1] == "no-length" for o in h.ops.values()):
